@@ -286,10 +286,10 @@ func c29Peeks(h c29Hdr, cfg *c29Cfg, st *c29Step, who string) (string, string) {
 			wantAll, _ = p[2].([]any)
 		}
 		if g := h.Peek(sp); string(g) != wantPeek {
-			return "Peek", fmt.Sprintf("%sPeek(%q)=%q, model %q", who, sp, g, wantPeek)
+			return "Peek[" + sp + "]", fmt.Sprintf("%sPeek(%q)=%q, model %q", who, sp, g, wantPeek)
 		}
 		if g := h.PeekBytes([]byte(sp)); string(g) != wantPeek {
-			return "Peek", fmt.Sprintf("%sPeekBytes(%q)=%q, model %q", who, sp, g, wantPeek)
+			return "Peek[" + sp + "]", fmt.Sprintf("%sPeekBytes(%q)=%q, model %q", who, sp, g, wantPeek)
 		}
 		got := h.PeekAll(sp)
 		var gs []string
@@ -306,7 +306,7 @@ func c29Peeks(h c29Hdr, cfg *c29Cfg, st *c29Step, who string) (string, string) {
 			ok = gs[i] == w
 		}
 		if !ok {
-			return "PeekAll", fmt.Sprintf("%sPeekAll(%q)=%q, model %v", who, sp, gs, wantAll)
+			return "PeekAll[" + sp + "]", fmt.Sprintf("%sPeekAll(%q)=%q, model %v", who, sp, gs, wantAll)
 		}
 	}
 	return "", ""
@@ -450,7 +450,7 @@ func c29Observe(h c29Hdr, req *RequestHeader, resp *ResponseHeader, cfg *c29Cfg,
 		}
 	}
 	if o, m := c29Peeks(hc, cfg, st, "copy."); o != "" {
-		return "CopyTo", m
+		return "CopyTo." + o, m
 	}
 	// the copy is independent of the original
 	hc.Add("X-Zz", "1")
@@ -468,6 +468,8 @@ func TestVerifC29HeaderMap(t *testing.T) {
 	evals, nontriv, steps := 0, 0, 0
 	seen := map[string]struct{}{}
 	perMode := map[string]int{}
+	perObs := map[string]int{}
+	suppressed := 0
 	var dirtyReq RequestHeader
 	var dirtyResp ResponseHeader
 	vfEachLine(t, "", func(line []byte) {
@@ -505,6 +507,13 @@ func TestVerifC29HeaderMap(t *testing.T) {
 			}
 			obs, msg := c29Observe(h, req, resp, &beh.Cfg, st, &dirtyReq, &dirtyResp)
 			if obs != "" {
+				// at most 25 reports per observer, so that one frequent disagreement cannot use
+				// up the cap on reported violations and hide a different one
+				perObs[obs]++
+				if perObs[obs] > 25 {
+					suppressed++
+					break
+				}
 				vfViol("c29:"+obs+":"+c29OpsKey(&beh, i),
 					fmt.Sprintf("after %s: %s", c29OpsKey(&beh, i), msg),
 					vfRec{"ops": c29OpsKey(&beh, i), "observer": obs, "step": i + 1, "model": st})
@@ -518,7 +527,7 @@ func TestVerifC29HeaderMap(t *testing.T) {
 			vfSample(vfRec{"ops": full, "final_model_fields": beh.Steps[len(beh.Steps)-1].A})
 		}
 	})
-	ex := vfRec{"steps_compared": steps}
+	ex := vfRec{"steps_compared": steps, "violations_not_reported_beyond_25_per_observer": suppressed}
 	for k, v := range perMode {
 		ex["behaviours_"+k] = v
 	}
